@@ -24,12 +24,26 @@ Open Scope N_scope.
 Definition norm_prefix (p : option str) : option str :=
   match p with Some q => if str_eqb q s_xmlns then None else Some q | None => None end.
 
-Definition NamesOk (doc : xdoc) : Prop :=
-  forall i, valid doc i -> kind doc i = KElement \/ kind doc i = KAttribute ->
+(** round 2: besides elements and attributes, a processing instruction reports its target without
+    prefix and namespace, and every other node of the data model (document, text, comment) reports
+    no name *)
+Definition names_row_ok (doc : xdoc) (i : node) : Prop :=
+  (kind doc i = KElement \/ kind doc i = KAttribute ->
     match name_of doc i with
     | XName l p u => s_name doc (Row i) = Some (l, norm_prefix p, u)
     | _ => False
-    end.
+    end) /\
+  (kind doc i = KPI ->
+    match name_of doc i with
+    | XName l p u => norm_prefix p = None /\ u = None
+    | _ => False
+    end) /\
+  (kind doc i <> KElement -> kind doc i <> KAttribute -> kind doc i <> KPI -> kind doc i <> KNamespace ->
+    name_of doc i = XNameNone).
+
+Definition NamesOk (doc : xdoc) : Prop := forall i, valid doc i -> names_row_ok doc i.
+
+Definition is_none {A} (o : option A) : bool := match o with None => true | Some _ => false end.
 
 Definition names_ok_b (doc : xdoc) : bool :=
   forallb (fun i =>
@@ -39,7 +53,14 @@ Definition names_ok_b (doc : xdoc) : bool :=
           str_eqb l l' && ostr_eq (norm_prefix p) p' && ostr_eq u u'
       | _, _ => false
       end
-    else true) (map N.of_nat (seq 0 (length doc))).
+    else if nkind_eqb (kind doc i) KPI then
+      match name_of doc i with
+      | XName _ p u => is_none (norm_prefix p) && is_none u
+      | _ => false
+      end
+    else if nkind_eqb (kind doc i) KNamespace then true
+    else match name_of doc i with XNameNone => true | _ => false end)
+    (map N.of_nat (seq 0 (length doc))).
 
 Lemma str_eqb_refl (a : str) : str_eqb a a = true.
 Proof. induction a as [|x a IH]; cbn [str_eqb]; [reflexivity|]. rewrite N.eqb_refl, IH. reflexivity. Qed.
@@ -64,17 +85,28 @@ Qed.
 
 Theorem names_ok_b_sound doc : names_ok_b doc = true -> NamesOk doc.
 Proof.
-  intros H i Vi Hk. unfold names_ok_b in H. rewrite forallb_forall in H.
+  intros H i Vi. unfold names_ok_b in H. rewrite forallb_forall in H.
   assert (Hin : In i (map N.of_nat (seq 0 (length doc)))).
   { apply in_map_iff. exists (N.to_nat i). unfold valid in Vi. split; [lia|]. apply in_seq. lia. }
-  specialize (H i Hin). cbn beta in H.
-  assert (Hb : nkind_eqb (kind doc i) KElement || nkind_eqb (kind doc i) KAttribute = true).
-  { destruct Hk as [Hk|Hk]; rewrite Hk; reflexivity. }
-  rewrite Hb in H.
-  destruct (name_of doc i) as [| |l p u]; try discriminate.
-  destruct (s_name doc (Row i)) as [[[l' p'] u']|]; try discriminate.
-  apply andb_prop in H. destruct H as [H H3]. apply andb_prop in H. destruct H as [H1 H2].
-  apply str_eqb_true in H1. apply ostr_eq_true in H2. apply ostr_eq_true in H3. subst. reflexivity.
+  specialize (H i Hin). cbn beta in H. unfold names_row_ok. split; [|split].
+  - intros Hk.
+    assert (Hb : nkind_eqb (kind doc i) KElement || nkind_eqb (kind doc i) KAttribute = true).
+    { destruct Hk as [Hk|Hk]; rewrite Hk; reflexivity. }
+    rewrite Hb in H.
+    destruct (name_of doc i) as [| |l p u]; try discriminate.
+    destruct (s_name doc (Row i)) as [[[l' p'] u']|]; try discriminate.
+    apply andb_prop in H. destruct H as [H H3]. apply andb_prop in H. destruct H as [H1 H2].
+    apply str_eqb_true in H1. apply ostr_eq_true in H2. apply ostr_eq_true in H3. subst. reflexivity.
+  - intros Hk. rewrite Hk in H. cbn [nkind_eqb orb] in H.
+    destruct (name_of doc i) as [| |l p u]; try discriminate.
+    apply andb_prop in H. destruct H as [H1 H2].
+    split; [destruct (norm_prefix p); [discriminate|reflexivity]|destruct u; [discriminate|reflexivity]].
+  - intros H1 H2 H3 H4.
+    destruct (nkind_eqb (kind doc i) KElement) eqn:E1; [apply nkind_eqb_true in E1; contradiction|].
+    destruct (nkind_eqb (kind doc i) KAttribute) eqn:E2; [apply nkind_eqb_true in E2; contradiction|].
+    destruct (nkind_eqb (kind doc i) KPI) eqn:E3; [apply nkind_eqb_true in E3; contradiction|].
+    destruct (nkind_eqb (kind doc i) KNamespace) eqn:E4; [apply nkind_eqb_true in E4; contradiction|].
+    cbn [orb] in H. destruct (name_of doc i); try discriminate. reflexivity.
 Qed.
 
 (** ** parents: the dom's parent observation (owner element for an attribute) is the parent in the
@@ -233,7 +265,7 @@ Proof.
   destruct Gi as [Vi Hnotns].
   destruct t as [nt|ty|target]; cbn [eval_node_test s_test].
   - rewrite Hp. destruct (principal doc (axis_of a) (Row i)) eqn:Epr; cbn [negb andb].
-    + pose proof (Hnames i Vi (element_or_attribute_of_principal a i Epr)) as Hn.
+    + pose proof (proj1 (Hnames i Vi) (element_or_attribute_of_principal a i Epr)) as Hn.
       destruct nt as [|p|q]; cbn [test_rel]; [reflexivity| |].
       * cbn [test_bound] in Hb. rewrite <- ns_lookup_bound.
         destruct (ns_lookup ns (Some p)) as [ua|]; [|contradiction].
